@@ -12,6 +12,8 @@ import (
 	"testing"
 
 	"github.com/lestrrat-go/jwx/v2/jwk"
+	ssi "github.com/nuts-foundation/go-did"
+	"github.com/nuts-foundation/go-did/did"
 	"github.com/nuts-foundation/nuts-node/auth"
 	"github.com/nuts-foundation/nuts-node/auth/client/iam"
 	"github.com/nuts-foundation/nuts-node/auth/oauth"
@@ -28,9 +30,40 @@ type c17JarCase struct {
 }
 
 const c17ClientID = "https://example.com/oauth2/victim"
+const c17JarVictimDID = "did:web:example.com:iam:victim"
+
+type c17JarDIDResolver struct {
+	docs map[string]*did.Document
+}
+
+func (r *c17JarDIDResolver) Resolve(id did.DID, _ *resolver.ResolveMetadata) (*did.Document, *resolver.DocumentMetadata, error) {
+	if d, ok := r.docs[id.String()]; ok {
+		return d, &resolver.DocumentMetadata{}, nil
+	}
+	return nil, nil, resolver.ErrNotFound
+}
+
+// add registers key under kid in the document of the DID kid parses to; an existing document is never extended
+// (the attacker never gets a key into the victim's document).
+func (r *c17JarDIDResolver) add(kid string, key crypto.PublicKey) {
+	id, err := did.ParseDIDURL(kid)
+	if err != nil || id.DID.Empty() {
+		return
+	}
+	if _, exists := r.docs[id.DID.String()]; exists {
+		return
+	}
+	vm, err := did.NewVerificationMethod(*id, ssi.JsonWebKey2020, id.DID, key)
+	if err != nil {
+		return
+	}
+	doc := &did.Document{ID: id.DID}
+	doc.AddAssertionMethod(vm)
+	r.docs[id.DID.String()] = doc
+}
 
 func c17JarGen(t *rapid.T) c17JarCase {
-	return c17JarCase{V: jose.Gen(t, jose.GenOpts{})}
+	return c17JarCase{V: jose.Gen(t, jose.GenOpts{Near: true})}
 }
 
 func c17JarRun(x *h.Ctx, c c17JarCase) {
@@ -38,8 +71,9 @@ func c17JarRun(x *h.Ctx, c c17JarCase) {
 		KeyRef:        "kid",
 		Allowed:       jwx.SupportedAlgorithmsAsStrings(),
 		IdentityBound: true,
-		Kids: map[string]string{jose.Victim: "did:web:example.com:iam:victim#0", jose.Attacker: "did:web:example.com:iam:attacker#0",
+		Kids: map[string]string{jose.Victim: c17JarVictimDID + "#0", jose.Attacker: jose.NearKid(c17JarVictimDID, "did:web:example.com:iam:attacker", "0", c.V.Near),
 			"unknown": "did:web:example.com:iam:nobody#0"},
+		Near:   c.V.Near,
 		Header: jose.Header{jose.Str("typ", "JWT")},
 		Payload: []byte(`{"iss":"did:web:example.com:iam:victim","client_id":"` + c17ClientID + `","aud":"https://example.com/oauth2/verifier","response_type":"code",` +
 			`"redirect_uri":"https://example.com/oauth2/victim/callback","state":"c17","iat":1600000000,"nbf":1600000000,"exp":4102444800,"jti":"c17"}`),
@@ -49,17 +83,21 @@ func c17JarRun(x *h.Ctx, c c17JarCase) {
 
 	ctrl := gomock.NewController(x.TB)
 	var obs jose.Observation
+	// honest DID resolution (every DID has exactly its own document) under the real DIDKeyResolver; the attacker's key id
+	// may be a near miss of the victim's DID and resolves to the attacker's own document
+	dids := &c17JarDIDResolver{docs: map[string]*did.Document{}}
+	dids.add(w.Kids[jose.Victim], keys[jose.Victim].Public())
+	dids.add(w.Kids[jose.Attacker], keys[jose.Attacker].Public())
+	realResolver := resolver.DIDKeyResolver{Resolver: dids}
+	if c.V.Near != "" {
+		_, rerr := realResolver.ResolveKeyByID(w.Kids[jose.Attacker], nil, resolver.AssertionMethod)
+		x.Classf("near-fixture:%s:attacker-key-resolvable=%v", c.V.Near, rerr == nil)
+	}
 	keyResolver := resolver.NewMockKeyResolver(ctrl)
 	keyResolver.EXPECT().ResolveKeyByID(gomock.Any(), gomock.Any(), gomock.Any()).AnyTimes().DoAndReturn(
-		func(kid string, _ *resolver.ResolveMetadata, _ resolver.RelationType) (crypto.PublicKey, error) {
+		func(kid string, md *resolver.ResolveMetadata, rt resolver.RelationType) (crypto.PublicKey, error) {
 			obs.KidsAsked = append(obs.KidsAsked, kid)
-			switch kid {
-			case w.Kids[jose.Victim]:
-				return keys[jose.Victim].Public(), nil
-			case w.Kids[jose.Attacker]:
-				return keys[jose.Attacker].Public(), nil
-			}
-			return nil, resolver.ErrKeyNotFound
+			return realResolver.ResolveKeyByID(kid, md, rt)
 		})
 	// the client's published key set: the victim's key only
 	set := jwk.NewSet()
